@@ -35,7 +35,8 @@ from vlib import Ctx, run_tlc, build_harness, run_bin, parse_jsonl, SPEC
 
 D = os.path.join(SPEC, "routing")
 DEVS = ["LastRoute", "LastHost", "NextHostOnMiss", "NoDefaultAfterHostMatch", "MatchWithQuery", "HostEquality",
-        "HostIgnoresPort", "WsUsesHttpRoutes", "HostCaseFolded", "PathCaseFolded", "EmptyHostIsAbsent", "NoSavedTextPos"]
+        "HostIgnoresPort", "WsUsesHttpRoutes", "HostCaseFolded", "PathCaseFolded", "EmptyHostIsAbsent", "NoSavedTextPos",
+        "AbsoluteFormInQuery"]
 # deviations whose refuting input lies outside the property's quantifier (an empty Host value is not among
 # "absent, exact, wildcard-matching, with port, non-matching"): shown on the real code, reported as drift only
 DEVS_OUTSIDE_QUANTIFIER = {"EmptyHostIsAbsent"}
